@@ -171,6 +171,6 @@ def selftest(mod: Any, repo: str, seed: int) -> dict:
         "seeded_detected": seeded_detected,
         "seeded": seeded_details,
         "rename_twins": {"files": twin_files, "generated": n_twins, "silent": n_twins - len(twin_alarms), "false_alarms": twin_alarms},
-        "structural_twins": {"families": ["invert-if", "temp-return", "split-and", "flip-compare", "early-continue/guard-to-nest", "comp-to-loop", "swap-independent", "inline-temp", "private-param-rename"], "generated": n_struct, "silent": n_struct - len(struct_alarms), "false_alarms": struct_alarms},
+        "structural_twins": {"families": ["invert-if", "temp-return", "split-and", "flip-compare", "early-continue/guard-to-nest", "comp-to-loop", "swap-independent", "inline-temp", "temp-test", "private-param-rename"], "generated": n_struct, "silent": n_struct - len(struct_alarms), "false_alarms": struct_alarms},
         "note": "self-test outcomes never change the exit code of the property check",
     }
